@@ -205,7 +205,13 @@ func checkC15(ctx *Ctx) {
 						ov = append(ov, pr.Val)
 					}
 				}
-				if k, d := sortedOutputProblems(e, want.SortSet, out, ov); k != "" || len(ov) != len(out) {
+				k, d := sortedOutputProblems(e, want.SortSet, out, ov)
+				if k == "sort-order" && name == "alpm" && mixedPkgrel(ov) {
+					// alpm versions with and without a pkgrel are not mutually comparable (the
+					// exclusion of C01): the order of a mixed list is not claimed
+					k = ""
+				}
+				if k != "" || len(ov) != len(out) {
 					v := Violation{Eco: name, Kind: "cli-" + k, Input: av, Expected: "the quoted inputs in library order", Actual: d}
 					classifyOrder(e, &v, want.SortVals...)
 					res.violate(v)
@@ -354,4 +360,17 @@ func nonASCIIInside(r *RNG, a string) string {
 		return a[:i] + u + a[i:]
 	}
 	return a + u
+}
+
+// mixedPkgrel: the alpm values do not all agree on having a pkgrel.
+func mixedPkgrel(vals []any) bool {
+	with, without := false, false
+	for _, v := range vals {
+		if b, ok := boolField(v, "hasPkgrel"); ok && b {
+			with = true
+		} else {
+			without = true
+		}
+	}
+	return with && without
 }
